@@ -21,7 +21,9 @@ RULE = ("percent layouts over the grid {0,5,10,12.5,33.33,50,90,95,100} + random
         "parsed independently and compared with Fraction arithmetic; captions whose text nodes "
         "carry different layouts must split into consecutive cues with the same times; "
         "(verbatim) settings strings of a WebVTT file written back verbatim. Non-trivial: >= 2 "
-        "distinct layouts in the set, or a layout at more than one level, or padding present.")
+        "distinct layouts in the set, or a layout at more than one level, or padding present. "
+        'In a quarter of the cases the writer / reader objects have handled another document '
+        'before and another writer with the opposite fit option wrote the same set. ')
 ASSUMPTIONS = [
     "layout values have at most two decimals (printing is lossless)",
     "WebVTT arithmetic is judged for layouts that have an origin (the quantified domain)",
